@@ -126,6 +126,27 @@ func (cl *Cluster) finish() {
 			c.Probe("liveness-inconclusive")
 		}
 	}
+	if cl.mode == ModeHostile && cl.hostileAt > 0 {
+		since := cl.hostileAt
+		if cl.cfg.GST > since {
+			since = cl.cfg.GST
+		}
+		stuck := -1
+		for _, n := range cl.honest() {
+			if n.alive && !n.failed && n.lastProg <= cl.hostileAt {
+				stuck = n.idx
+				break
+			}
+		}
+		switch {
+		case stuck < 0:
+			c.Probe("progress-after-hostile-traffic")
+		case cl.now-since >= 90*time.Second:
+			c.Violate("halted", "C16/halted", "node %d committed nothing in %v of quiet virtual time after hostile peer traffic", stuck, cl.now-since)
+		default:
+			c.Probe("liveness-inconclusive")
+		}
+	}
 	if minH < uint64(cl.cfg.Heights) {
 		c.Probe("stalled-before-target")
 	}
